@@ -141,7 +141,10 @@ Explains(e) ==
       [] e.ev = "default"     -> ExplainsDefault(e)
       \* fields of any TYPE: the derived impl is one call of the field type's own clone / clone_from per field, in order
       [] e.ev = "clone_fieldwise" -> e.from_log_equal /\ e.from_state_equal /\ e.clone_log_equal /\ e.clone_state_equal
+      \* macro_rules-generated items: the derived impls behave like the std-derived twin / the field-wise computation
+      [] e.ev = "same_as_twin" -> e.equal
       [] e.ev = "deref"       -> ExplainsDeref(e)
+      [] e.ev = "deref_compiles" -> e.rustc_ok     \* a single field of any type is a legitimate target
       [] e.ev = "deref_pinned" -> ~e.rustc_ok     \* DerefMut names the field type: next to a hand-written Deref with another Target rustc must refuse it
       [] OTHER                -> FALSE
 
